@@ -3,6 +3,7 @@ package harness
 import (
 	"context"
 	"fmt"
+	"net/http"
 	"strings"
 	"sync"
 	"testing"
@@ -26,7 +27,7 @@ type C20Case struct {
 }
 
 func genC20(t *rapid.T) C20Case {
-	c := C20Case{Mode: rapid.SampledFrom([]Mode{ModeSJ, ModeSS, ModeSS, ModeLegacy, ModeStdio}).Draw(t, "mode"), Callers: rapid.IntRange(2, 8).Draw(t, "callers"), Rounds: rapid.IntRange(1, 4).Draw(t, "rounds"), Real: rapid.IntRange(0, 5).Draw(t, "real") == 0}
+	c := C20Case{Mode: rapid.SampledFrom([]Mode{ModeSJ, ModeSS, ModeSS, ModeLegacy, ModeStdio, ModeLJ, ModeLS}).Draw(t, "mode"), Callers: rapid.IntRange(2, 8).Draw(t, "callers"), Rounds: rapid.IntRange(1, 4).Draw(t, "rounds"), Real: rapid.IntRange(0, 5).Draw(t, "real") == 0}
 	n := rapid.IntRange(2, 10).Draw(t, "nops")
 	for i := 0; i < n; i++ {
 		c.Ops = append(c.Ops, rapid.IntRange(0, 7).Draw(t, "op"))
@@ -48,6 +49,10 @@ func execC20(c C20Case) *Failure {
 				wg.Add(1)
 				go func(i int) {
 					defer wg.Done()
+					if i%2 == 1 {
+						s.GetData("k1") // readers that have not written anything themselves
+						_ = s.GetLastActivity()
+					}
 					s.SetData(fmt.Sprint("k", i%2), i)
 					s.GetData("k0")
 					s.UpdateActivity()
@@ -305,4 +310,84 @@ func TestC20Roots(t *testing.T) {
 		},
 		Exec: execC20Roots,
 		NT:   func(c C20RootsCase) (bool, []string) { return c.Clients >= 2, []string{"mode=" + c.Mode.String()} }})
+}
+
+// ---------------------------------------------------------------------------
+// a session's listening stream is replaced again and again while the server keeps sending to the session
+
+type C20ReconnCase struct {
+	Senders    int  `json:"senders"`    // goroutines sending to the session in a loop (addressed notifications, broadcasts, server requests)
+	Reconnects int  `json:"reconnects"` // GETs opened for the same session one after the other
+	LastID     bool `json:"lastid"`     // the reconnecting GETs carry a Last-Event-ID header
+	GapUs      int  `json:"gapus"`
+}
+
+func execC20Reconn(c C20ReconnCase) *Failure {
+	w := NewWorld(ModeSJ, RegSpec{}, WorldOpt{})
+	defer w.Close()
+	conn, err := w.Connect()
+	if err != nil {
+		return Failf("C20/connect", "%v", err)
+	}
+	h := w.Srv.Handler()
+	hdr := map[string]string{"Accept": "text/event-stream", "Mcp-Session-Id": conn.SessionID}
+	cur := StartLive(h, "GET", "http://verif/mcp", hdr, nil, nil)
+	if !cur.WaitFlushedHeader(2 * time.Second) {
+		return TimingFailf("C20/connect", "the listening stream did not open")
+	}
+	stop := make(chan struct{})
+	var wg sync.WaitGroup
+	for g := 0; g < c.Senders; g++ {
+		wg.Add(1)
+		go func(g int) {
+			defer wg.Done()
+			for i := 0; ; i++ {
+				select {
+				case <-stop:
+					return
+				default:
+				}
+				switch (g + i) % 4 {
+				case 0, 1:
+					w.Srv.SendNotification(conn.SessionID, "notifications/verif", map[string]interface{}{"i": i})
+				case 2:
+					w.Srv.BroadcastNotification("notifications/verif-b", map[string]interface{}{"i": i})
+				case 3:
+					ctx, cancel := context.WithTimeout(context.Background(), 200*time.Microsecond)
+					w.Srv.SendRequest(ctx, conn.SessionID, &mcp.JSONRPCRequest{JSONRPC: "2.0", Request: mcp.Request{Method: "verif/ask"}})
+					cancel()
+				}
+			}
+		}(g)
+	}
+	var olds []*LiveResp
+	for r := 0; r < c.Reconnects; r++ {
+		h2 := map[string]string{"Accept": "text/event-stream", "Mcp-Session-Id": conn.SessionID}
+		if c.LastID {
+			h2[http.CanonicalHeaderKey("Last-Event-ID")] = fmt.Sprintf("evt-%d", r)
+		}
+		next := StartLive(h, "GET", "http://verif/mcp", h2, nil, nil)
+		next.WaitFlushedHeader(2 * time.Second)
+		olds = append(olds, cur)
+		cur = next
+		if c.GapUs > 0 {
+			time.Sleep(time.Duration(c.GapUs) * time.Microsecond)
+		}
+	}
+	close(stop)
+	wg.Wait()
+	cur.PeerGone()
+	for _, o := range olds {
+		o.PeerGone()
+	}
+	return nil
+}
+
+func TestC20Reconnect(t *testing.T) {
+	RunProp(t, Prop[C20ReconnCase]{ID: "C20",
+		Gen: func(t *rapid.T) C20ReconnCase {
+			return C20ReconnCase{Senders: rapid.IntRange(1, 4).Draw(t, "senders"), Reconnects: rapid.IntRange(3, 40).Draw(t, "reconnects"), LastID: rapid.Bool().Draw(t, "lastid"), GapUs: rapid.SampledFrom([]int{0, 50, 300}).Draw(t, "gap")}
+		},
+		Exec: execC20Reconn,
+		NT:   func(c C20ReconnCase) (bool, []string) { return true, []string{fmt.Sprintf("senders=%d", c.Senders)} }})
 }
